@@ -162,7 +162,21 @@ def _run(ctx):
         amt_vals = [x for x in common.walk(offer) if x[0] == "call" and (N.is_fn(x[3], "q_balance") or N.is_fn(x[3], "q_token_balance"))]
         amt = set(ctx.roots(offer, (("f", "amount"),)))
         good = True
-        if not amt or not all(re.match(r"^C:(%s|%s)@" % (N.rx("q_balance"), N.rx("q_token_balance")), a) for a in amt):
+        # form 2: the shared balance helper `info.query_pool(querier, api, own address)` (verified by lemma) instead of the two explicit queries
+        qpools = [x for x in common.walk(offer) if x[0] == "call" and N.is_fn(x[3], "query_pool")]
+        if not amt_vals and len(qpools) == 1 and amt == {"C:%s@%s:bb%d" % (N.cpath("query_pool"), hop.path, qpools[0][2])}:
+            qv_ = qpools[0]
+            info_roots = set(ctx.roots(offer, (("f", "info"),)))
+            if lemmas.check_query_pool(ctx, r4) is None:
+                pass
+            elif set(ctx.roots(qv_[4][3])) != {own}:
+                r4.fail("C07.R4:balance-account:query_pool", hop.path, common.span_of_block_term(hop, qv_[2]), "the hop amount is the balance of %s, expected the router's own address" % sorted(ctx.roots(qv_[4][3])))
+            elif set(ctx.roots(qv_[4][0])) != info_roots:
+                r4.fail("C07.R4:balance-asset", hop.path, common.span_of_block_term(hop, qv_[2]), "the hop amount is the balance of %s but the hop offers %s" % (sorted(ctx.roots(qv_[4][0])), sorted(info_roots)))
+            else:
+                r4.site("hop amount ⊢ query_pool(offer asset, router) — bank balance for native, cw20 balance for tokens")
+                r4.site("(account ⊢ router, asset ⊢ the hop's offer asset)")
+        elif not amt or not all(re.match(r"^C:(%s|%s)@" % (N.rx("q_balance"), N.rx("q_token_balance")), a) for a in amt):
             r4.fail("C07.R4:amount-origin", hop.path, common.span_of_block_term(hop, rr.hop_builder_call), "hop amount ⊢ %s, expected a balance query" % sorted(amt))
             good = False
         for q in amt_vals:
@@ -174,7 +188,7 @@ def _run(ctx):
             what = set(ctx.roots(q[4][2] if name == "query_balance" else q[4][1]))
             info_roots = set(ctx.roots(offer, (("f", "info"),)))
             r4.site("%s(account ⊢ router, asset ⊢ %s)" % (name, sorted(what)[0][-60:]))
-        if len({generic_path(q[3]) for q in amt_vals}) != 2:
+        if amt_vals and len({generic_path(q[3]) for q in amt_vals}) != 2 or (not amt_vals and len(qpools) != 1):
             r4.fail("C07.R4:balance-kinds", hop.path, hop.span, "expected one native and one cw20 balance query feeding the hop amount, found %s" % sorted({common.last_seg(q[3]) for q in amt_vals}))
         # pair target
         tgt = set(ctx.roots(cv[4][pair_i]))
@@ -221,7 +235,7 @@ def _run(ctx):
             to_i = common.param_access(P, swap, r"^std::option::Option<cosmwasm_std::\S*Addr>$")
             s_i = common.param_access(P, swap, r"^cosmwasm_std::\S*Addr$")
             want = {"or(%s;%s)" % (to_i.some_root(), s_i.root())} if to_i is not None and s_i is not None else {"?"}
-        elif c.path == wd.path:
+        elif c.path == wd.path or (c.kind == "closure" and c.parent == wd.path):
             s_i = common.param_index_of_type(wd, r"^cosmwasm_std::\S*Addr$")
             want = {P_(wd, s_i)}
         elif c.impl_self == N.Asset and not [x for x in P.callers(c.path) if "::tests::" not in x[0].path]:
